@@ -20,7 +20,7 @@ fn options(failure: &str, transparent: &str) -> Option<MappingOptions> {
 
 /// `UTIL <id> extrude <w> <h> <hexpixels>`
 /// `UTIL <id> mapper <hexfile> <failure> <transparent|-> <hex rgba queries>`
-/// `UTIL <id> indexed <hexfile> <failure> <transparent|-> <w> <h> <hexpixels>`
+/// `UTIL <id> indexed <hexfile> <failure> <transparent|-> <w> <h> <hexpixels> [<hex spare bytes>]`
 pub fn handle(parts: &[&str], out: &mut impl Write) {
     if parts.len() < 3 {
         writeln!(out, "bad-op").unwrap();
@@ -53,13 +53,18 @@ pub fn handle(parts: &[&str], out: &mut impl Write) {
                     .collect();
                 Some(format!("mapper {}", res.join(",")))
             }
-            "indexed" if parts.len() == 9 => {
+            "indexed" if parts.len() == 9 || parts.len() == 10 => {
                 let file = AsepriteFile::read(Cursor::new(crate::unhex(parts[3])?)).ok()?;
                 let pal = file.palette()?;
                 let mapper = PaletteMapper::new(pal, options(parts[4], parts[5])?);
                 let w: u32 = parts[6].parse().ok()?;
                 let h: u32 = parts[7].parse().ok()?;
-                let img = image_from(w, h, &crate::unhex(parts[8])?)?;
+                // optional 10th field: spare bytes behind the pixels in the backing buffer
+                let mut buf = crate::unhex(parts[8])?;
+                if parts.len() == 10 {
+                    buf.extend(crate::unhex(parts[9])?);
+                }
+                let img = image_from(w, h, &buf)?;
                 let ((rw, rh), data) = to_indexed_image(img, &mapper);
                 Some(format!("indexed {}x{} {}", rw, rh, crate::hex(&data)))
             }
